@@ -135,6 +135,8 @@ def r_fm(fm, simple):
         return "%s '%s'" % (fm['part'], ''.join(GLOB[e] for e in fm['pat']))
     if op == 'path':
         return "path '*/D/%s'" % rel_path(fm['rel'])
+    if op == 'pathg':
+        return "path 'D/%s'" % '/'.join(''.join(GLOB[e] for e in c) for c in fm['pat'])
     if op == 'contents':
         return 'contents ' + r_tm(fm['tm'])
     if op == 'dir-contents':
